@@ -55,6 +55,20 @@ def gen(rng, tier):
         yield case
     for case in gen_extra(rng, tier):
         yield case
+    for _ in range(8 if tier == 'quick' else 150):
+        labs, akind = G.alphabet(rng, k=rng.randint(3, 5))
+        rng.shuffle(labs)
+        if rng.random() < 0.5:
+            # the last state shows up only in the final frames: entered, never left at this lag (T has a zero row)
+            late, rest = labs[0], labs[1:]
+            lag = rng.choice([1, 2, 3])
+            t = G.traj(rng, rest, rng.randint(60, 150), sticky=0.6) + [late] * rng.randint(1, lag)
+            yield {'trajs': [t], 'lags': [lag], 'tmax': lag * rng.randint(2, 5), 'lumped': False, 'alpha': akind, 'mal': None, 'style': 'late-state'}
+        else:
+            # one trajectory stays in a state nobody else visits: T(t) is fuzzy ergodic at best, never ergodic
+            lone, rest = labs[0], labs[1:]
+            trajs = [G.traj(rng, rest, rng.randint(60, 150), sticky=0.6) + rest, [lone] * rng.randint(10, 40)]
+            yield {'trajs': trajs, 'lags': [1, 2], 'tmax': rng.randint(4, 9), 'lumped': False, 'alpha': akind, 'mal': None, 'style': 'lone-state'}
     for _ in range(2 if tier == 'quick' else 30):        # arrays of different integer widths, narrow first, > 128 states
         trajs, dtypes, tag = G.narrow_set(rng, rng.choice(['many-mixed', 'many-unsigned']))
         yield {'trajs': trajs, 'lags': [2, 1], 'tmax': 4, 'lumped': False, 'alpha': tag, 'mal': None, 'style': 'narrow', 'dtypes': dtypes}
